@@ -2,8 +2,9 @@
 """Markdown table of the seeded changes (from /verif/seeded/S-*/meta.json) for DESIGN.md section 11."""
 import json, glob, os, sys
 rounds = set(sys.argv[1:]) or None
-print("| id | change | caught by its own property's check (first signature) | also caught by |")
-print("|---|---|---|---|")
+FULL = not (rounds and all(int(r) >= 4 for r in rounds))  # rounds 1-3 have the full matrix
+print("| id | change | caught by its own property's check (first signature) |" + (" also caught by |" if FULL else ""))
+print("|---|---|---|" + ("---|" if FULL else ""))
 n = own = 0
 for mp in sorted(glob.glob("/verif/seeded/S-*/meta.json")):
     m = json.load(open(mp))
@@ -20,6 +21,9 @@ for mp in sorted(glob.glob("/verif/seeded/S-*/meta.json")):
     others = ", ".join(k for k in sorted(det) if k != p) or "-"
     if len(m.get("exit_codes", {})) <= 1 and m.get("round", 1) >= 4:
         others = "(own check only re-run)" if others == "-" else others
-    print("| {} | {} | {} | {} |".format(m["id"], m["change"][:150].replace("|", "/"), first, others))
+    if FULL:
+        print("| {} | {} | {} | {} |".format(m["id"], m["change"][:150].replace("|", "/"), first, others))
+    else:
+        print("| {} | {} | {} |".format(m["id"], m["change"][:170].replace("|", "/"), first))
 print()
 print("{} of {} caught by the check of their own property".format(own, n))
